@@ -61,9 +61,9 @@ type Step struct {
 	D time.Duration `json:"d,omitempty"` // advance
 
 	// W-sys
-	Req     *ReqSpec `json:"req,omitempty"`
+	Req     *ReqSpec  `json:"req,omitempty"`
 	Reqs    []ReqSpec `json:"reqs,omitempty"` // race: requests served concurrently
-	NewSpec *SysSpec `json:"new_spec,omitempty"`
+	NewSpec *SysSpec  `json:"new_spec,omitempty"`
 
 	// crash / fault / concurrency fields are added by the worlds that use them
 	Image          string   `json:"image,omitempty"`            // crash: kill | powerloss
